@@ -123,9 +123,42 @@ def updateDiscover (s : State) (f : FileS) (o : Ov) (bv : Bits) : State :=
     | none => bv
   onBoth s (fun t => { t with discover := upd t.discover f.root (upd ((t.discover.lookup f.root).getD []) o nb) })
 
-/-- the table part of `DelFile`: `delDiscoverPresence`, `DelChunkInfoSource`, `delPresence` -/
+/-- the table part of `DelFile`: `delDiscoverPresence`, `DelChunkInfoSource`, `delPresence`.
+    Each of the three deletes by the PREFIX `<prefix><root>` in the state store and the whole `root`
+    entry in memory: the records of EVERY overlay under that root go — the node's own availability
+    record and the ones it keeps for the peers it served (`chunk-<root>-<peer>`) alike. -/
 def delFile (s : State) (root : Addr) : State :=
   onBoth s (fun t => { presence := del t.presence root, discover := del t.discover root, source := del t.source root })
+
+/-- NOT the code: `delPresence` deleting only the node's own persisted record (`chunk-<root>-<self>`)
+    while the in-memory entry of the root is dropped completely; discover and source as in `delFile`.
+    Exists only to state that this is a different function (`C17_self_only_delete_counterexample`). -/
+def delFileSelfOnly (s : State) (root : Addr) : State :=
+  { mem := { presence := del s.mem.presence root, discover := del s.mem.discover root, source := del s.mem.source root },
+    disk := { presence := s.disk.presence.map (fun e => if e.1 = root then (e.1, del e.2 self) else e),
+              discover := del s.disk.discover root, source := del s.disk.source root } }
+
+/-- the state-store keys of chunkinfo, one per (prefix, root, overlay): `chunk-<root>-<o>`,
+    `discover-<root>-<o>`, `sourceChunk-<root>-<o>`, `sourcePyramid-<root>-<o>` -/
+inductive Key
+  | chunk (root : Addr) (o : Ov)
+  | discover (root : Addr) (o : Ov)
+  | sourceChunk (root : Addr) (o : Ov)
+  | sourcePyramid (root : Addr) (o : Ov)
+deriving DecidableEq, Repr
+
+def Key.root : Key → Addr
+  | .chunk r _ => r
+  | .discover r _ => r
+  | .sourceChunk r _ => r
+  | .sourcePyramid r _ => r
+
+/-- every record of an image as its state-store key (for the persisted image: the keys that exist) -/
+def Tables.keys (t : Tables) : List Key :=
+  t.presence.flatMap (fun e => e.2.map (fun o => Key.chunk e.1 o.1)) ++
+  t.discover.flatMap (fun e => e.2.map (fun o => Key.discover e.1 o.1)) ++
+  t.source.flatMap (fun e => e.2.chunks.map (fun o => Key.sourceChunk e.1 o.1)) ++
+  t.source.flatMap (fun e => match e.2.pyramid with | some o => [Key.sourcePyramid e.1 o] | none => [])
 
 /-- `DelDiscover` -/
 def delDiscover (s : State) (root : Addr) : State :=
